@@ -15,7 +15,7 @@
 (***************************************************************************)
 EXTENDS Integers, Sequences, FiniteSets, TLC, Json, IOUtils
 
-Ch == INSTANCE Chains WITH Instances <- {}, inst <- [n |-> 0, links |-> <<>>], tr <- <<>>, done <- {},
+Ch == INSTANCE Chains WITH Repair <- {"tailcut-order", "fresh-head-id"}, Instances <- {}, inst <- [n |-> 0, links |-> <<>>], tr <- <<>>, done <- {},
                            nxt <- 0, cc <- 0, err <- "", log <- <<>>
 
 Traces == ndJsonDeserialize(IOEnv.TRACE_FILE)
